@@ -63,4 +63,54 @@ theorem closed_ends (st : St) (id s : Nat) (x : Stream) (h : lookup st.senders i
 theorem unknown_ignored (st : St) (id tag : Nat) (h : lookup st.senders id = none) : onEv st (.msg id tag) = st := by
   simp [onEv, h]
 
+/-! ### closed system for the correspondence check: channels, client operations, router iterations -/
+structure Chan where
+  queue : List Nat          -- sent and not yet reported by select()
+  senders : Nat             -- live sender handles
+  closedReported : Bool
+  route : Option Nat        -- receiver-set id once the routing thread registered it
+  stream : Option Nat       -- stream index once `to_stream` was called
+deriving Repr
+
+structure Sys where
+  chans : List Chan
+  r : St
+deriving Repr
+
+inductive Op | new | send (c t : Nat) | dropsnd (c : Nat) | tostream (c : Nat)
+deriving Repr
+
+def Sys.init : Sys := ⟨[], ⟨[], 1, [], []⟩⟩
+
+def client (y : Sys) : Op → Sys
+  | .new => { y with chans := y.chans ++ [⟨[], 1, false, none, none⟩] }
+  | .send c t => { y with chans := y.chans.modify c fun ch => if ch.senders = 0 then ch else { ch with queue := ch.queue ++ [t] } }
+  | .dropsnd c => { y with chans := y.chans.modify c fun ch => { ch with senders := 0 } }
+  | .tostream c =>
+    let s := y.r.streams.length
+    { chans := y.chans.modify c fun ch => { ch with stream := some s },
+      r := { y.r with streams := y.r.streams ++ [⟨[], false⟩], pending := y.r.pending ++ [s] } }
+
+/-- the events a (maximal) select() batch reports for one registered member: its queued messages in order, then the closure -/
+def chanEvents (ch : Chan) : List Ev :=
+  match ch.route with
+  | none => []
+  | some id => ch.queue.map (Ev.msg id) ++ (if ch.senders = 0 ∧ !ch.closedReported then [Ev.closed id] else [])
+
+/-- one iteration of the routing thread: a maximal batch, then registration of the routes offered meanwhile -/
+def iter (y : Sys) : Sys :=
+  let evs := y.chans.flatMap chanEvents
+  let chans := y.chans.map fun ch => match ch.route with
+    | none => ch
+    | some _ => { ch with queue := [], closedReported := ch.closedReported || decide (ch.senders = 0) }
+  let r := batch y.r evs
+  let chans := chans.map fun ch => match ch.route, ch.stream with
+    | none, some s => { ch with route := (r.senders.find? fun x => decide (x.2 = s)).map (·.1) }
+    | _, _ => ch
+  ⟨chans, r⟩
+
+def script (ops : List Op) : Sys :=
+  let y := ops.foldl (fun y op => iter (iter (client y op))) Sys.init
+  iter (iter y)
+
 end Async
